@@ -387,7 +387,7 @@ func (loader *Loader) resolveComponent(doc *T, ref string, path *url.URL, resolv
 
 			// Special case due to multijson
 			case *SchemaRef:
-				if pathPart == "additionalProperties" {
+				if pathPart == "additionalProperties" && c != nil && c.Value != nil {
 					if ap := c.Value.AdditionalProperties.Has; ap != nil {
 						cursor = *ap
 					} else {
@@ -397,10 +397,19 @@ func (loader *Loader) resolveComponent(doc *T, ref string, path *url.URL, resolv
 				}
 
 			case *Responses:
+				if c == nil {
+					return nil, failedToResolveRefFragmentPart(ref, pathPart)
+				}
 				cursor = c.m // m map[string]*ResponseRef
 			case *Callback:
+				if c == nil {
+					return nil, failedToResolveRefFragmentPart(ref, pathPart)
+				}
 				cursor = c.m // m map[string]*PathItem
 			case *Paths:
+				if c == nil {
+					return nil, failedToResolveRefFragmentPart(ref, pathPart)
+				}
 				cursor = c.m // m map[string]*PathItem
 			}
 
